@@ -16,7 +16,7 @@ import os
 import random
 from decimal import Decimal
 
-from harness.common import REPO, main, pool_map, safe_drive
+from harness.common import VERIF,  REPO, main, pool_map, safe_drive
 from harness import tlc
 
 TRACE = "trace/Trace_Cif.tla"
@@ -210,7 +210,27 @@ def drive(recipe):
         return t
     t["text"] = [ord(c) if ord(c) < 256 else 0 for c in text]
     try:
-        out = Cif.from_string(text).data
+        if recipe.get("seed", 0) % 4 == 1 and all(ord(c) < 128 for c in text):
+            # through a file: the path held another dictionary a moment ago and was read then (a file that keeps being
+            # rewritten, current.cif); what is read now is the file as it is now
+            import tempfile
+            dtmp = tempfile.mkdtemp(prefix="c15-", dir=os.path.join(VERIF, "out"))
+            try:
+                path = os.path.join(dtmp, "current.cif")
+                Cif({"earlier": {"cell_length_a": 1.5, "note": "x"}}).to_file(path)
+                Cif.from_file(path).data
+                Cif(src).to_file(path)
+                with open(path) as fh:
+                    if fh.read() != text:
+                        t["exc_ser"] = "FileDiffersFromString"
+                        return t
+                out = Cif.from_file(path).data
+                t["meta"]["impl_call"] = "Cif(data).to_file(path); Cif.from_file(path).data (the path was written and read before)"
+            finally:
+                import shutil
+                shutil.rmtree(dtmp, ignore_errors=True)
+        else:
+            out = Cif.from_string(text).data
     except Exception as e:
         t["exc_parse"] = type(e).__name__
         return t
